@@ -61,6 +61,42 @@ func c20Universe(name string, lvl int) ([]string, []eco.Ver) {
 			base = append(base, i)
 		}
 	}
+	// one member per distinct build-metadata text (+b, +incompatible, ...), with its plain spelling
+	{
+		seen := map[string]bool{}
+		for _, i := range clean {
+			s := u.Strs[i]
+			if k := strings.Index(s, "+"); k > 0 && !seen[s[k:]] && (len(seen) < 8 || s[k:] == "+incompatible") && len(s) < 30 {
+				seen[s[k:]] = true
+				if !in[i] {
+					in[i] = true
+					base = append(base, i)
+				}
+			}
+		}
+	}
+	// neighbourhoods of the shorthand bases 0.2.3 and 1.2.3: releases around them with a
+	// pre-release spelling in between (stability filters make a range non-convex exactly there)
+	{
+		want := map[string]bool{}
+		for _, core := range []string{"0.2.3", "0.2.4", "0.2.6", "0.3.0", "1.2.3", "1.2.4", "1.2.6", "1.3.0", "2.0.0"} {
+			want[core] = true
+		}
+		for _, m := range c03Markers[name] {
+			if m.dir < 0 {
+				want["0.2.5"+m.s] = true
+				want["1.2.5"+m.s] = true
+				want["1.9.0"+m.s] = true
+				break
+			}
+		}
+		for _, i := range clean {
+			if want[u.Strs[i]] && !in[i] {
+				in[i] = true
+				base = append(base, i)
+			}
+		}
+	}
 	out := append([]int{}, base...)
 	for _, i := range base {
 		k := 0
@@ -98,11 +134,12 @@ func c20Ranges(name string, lvl int, strs []string) []string {
 		}
 	}
 	sel := stride(bounds, 25)
-	nplus := 0
+	// one bound per distinct build-metadata text (+b, +incompatible, ...)
+	seenBuild := map[string]bool{}
 	for _, i := range bounds {
-		if strings.Contains(strs[i], "+") && nplus < 3 {
+		if k := strings.Index(strs[i], "+"); k >= 0 && !seenBuild[strs[i][k:]] && (len(seenBuild) < 8 || strs[i][k:] == "+incompatible") {
+			seenBuild[strs[i][k:]] = true
 			sel = append(sel, i)
-			nplus++
 		}
 	}
 	seenPrefix := map[string]bool{}
